@@ -76,6 +76,8 @@ class Interp:
                 oarr = p.fresh(hint + "_ord", z3.ArraySort(z3.IntSort(), t.k.sort()))
                 v.order = VSeq(oarr, card, t.k, "list")
             self.assume_wf_map(v)
+            if getattr(t, "default_zero", False):
+                v.default_e = z3.RealVal(0) if t.v is TReal else z3.IntVal(0)
             return v
         if isinstance(t, TSet):
             dom = p.fresh(hint + "_dom", z3.ArraySort(t.k.sort(), z3.BoolSort()))
